@@ -1,14 +1,16 @@
 #!/bin/sh
 # usage: tools/eval_isolated.sh <patch.diff> <ID> [more IDs...]
 # Like eval_seeded.sh, but on a private copy: a scratch worktree of /repo's HEAD (/tmp/eval-repo) and a
-# copy of the simulator crate (/tmp/eval-sim, path dependencies redirected), so that /repo and
+# copy of the simulator crate as committed in /verif's HEAD (/tmp/eval-sim, path dependencies redirected), so that /repo and
 # /verif/sim stay untouched and usable meanwhile. Development helper; registered checks never use it.
 P="$1"; shift
 [ -d /tmp/eval-repo ] || git -C /repo worktree add --detach /tmp/eval-repo HEAD >/dev/null 2>&1 || exit 2
 git -C /tmp/eval-repo checkout -q --detach "$(git -C /repo rev-parse HEAD)" 2>/dev/null
 git -C /tmp/eval-repo checkout -- . 
 mkdir -p /tmp/eval-sim /tmp/seeded-eval
-rsync -a --delete --exclude target /verif/sim/ /tmp/eval-sim/
+# the simulator as *committed* (edits in progress in /verif/sim do not disturb an evaluation)
+rm -rf /tmp/eval-export && mkdir -p /tmp/eval-export && git -C /verif archive HEAD sim | tar -x -C /tmp/eval-export
+rsync -a --delete --exclude target /tmp/eval-export/sim/ /tmp/eval-sim/
 sed -i 's#/repo/crates#/tmp/eval-repo/crates#g' /tmp/eval-sim/Cargo.toml
 cp /verif/known_findings.txt /tmp/seeded-eval/
 cd /tmp/eval-repo || exit 2
